@@ -148,6 +148,7 @@ static std::string compare(const Value<C> &v, const ref::JNode &n, const std::st
     return "";
 }
 
+static bool diff_overloads = true;
 template <typename C>
 static void judge(const Text &cps, const ref::JNode &want, langx::Exact<C> &ex, vx::Ctx &ctx) {
     Text     units = to_units<C>(cps);
@@ -163,6 +164,38 @@ static void judge(const Text &cps, const ref::JNode &want, langx::Exact<C> &ex, 
         }
         if (!diff.empty()) {
             ctx.fail(std::string(wname<C>()) + " " + langx::show(cps), diff);
+        }
+    }
+    // the other public entry points: the terminated-text overload (documents without a NUL unit) and the overload that takes the
+    // caller's scratch stream, used for two parses in a row
+    if (diff_overloads) {
+        bool has_nul = false;
+        for (char32_t u : units) {
+            has_nul = has_nul || u == 0;
+        }
+        if (!has_nul) {
+            std::basic_string<C> z;
+            for (char32_t u : units) {
+                z.push_back((C)u);
+            }
+            Value<C> v = JSON::Parse(z.c_str());
+            ctx.acc.count("evals");
+            std::string diff = v.IsUndefined() ? std::string("document rejected") : compare(v, want, "$");
+            if (!diff.empty()) {
+                ctx.fail(std::string(wname<C>()) + " (terminated-text overload) " + langx::show(cps), diff);
+            }
+        }
+        {
+            StringStream<C> scratch;
+            {
+                Value<C> first = JSON::Parse(scratch, p, SizeT(units.size()));
+            }
+            Value<C> v = JSON::Parse(scratch, p, SizeT(units.size())); // second parse through the same stream
+            ctx.acc.count("evals");
+            std::string diff = v.IsUndefined() ? std::string("document rejected") : compare(v, want, "$");
+            if (!diff.empty()) {
+                ctx.fail(std::string(wname<C>()) + " (caller's stream overload, stream reused) " + langx::show(cps), diff);
+            }
         }
     }
     ledger_ok(ctx, langx::show(cps));
